@@ -427,3 +427,41 @@ def frames_survive_faults(O):
 def clock_columns_checked_by_name(O):
     from . import C11, dri
     C11.clock_inputs_core(O, dri.Rep({"family": "runtime"}, runtime_battery(), runtime_judge))
+
+
+@obligation("C10/panic-site-audit", profiles=("dev",),
+            desc="every function of the run-time half of the crate (row iterator, interpreter, context, expressions, framed map, "
+                 "values, static test, glue in lib.rs: 173 bodies), executed in isolation from its entry and from each loop "
+                 "header with callees as events and the exact panic behaviour of unwrap / expect / indexing / arithmetic: the "
+                 "panic sites that are locally reachable are exactly those on the committed list /verif/panic_sites.json (each "
+                 "with the invariant that keeps it unreachable); a new site is decided natively by the run-time batteries")
+def panic_site_audit(O):
+    from .. import panicaudit
+    from . import dri, batteries as B
+    from .refmodel import reference_battery
+    # (scenarios that stop after a few rows on purpose are left out: the run-time judge reads a truncated run as non-termination)
+    bat = [s_ for s_ in runtime_battery() + B.control_battery() + B.protocol_battery() + B.fault_battery()[:40] if s_.max_rows >= 20]
+    R = dri.Rep({"family": "runtime"}, bat, runtime_judge)
+    sites, nfn, npaths = panicaudit.collect(O)
+    known = panicaudit.load_list()
+    if not known:
+        O.inconclusive("the committed list of panic sites is missing")
+        return
+    O.rec["paths"] += npaths
+    new = 0
+    for (fn, kind, msg), paths in sorted(sites.items()):
+        if kind == "unsupported":
+            O.inconclusive("run-time function %s is not executable by the engine: %s" % (fn, msg))
+            continue
+        inv = known.get((fn, msg))
+        if inv is not None:
+            O.assumed_unreachable("%s: %s" % (fn.split("::", 1)[-1], msg), inv)
+            continue
+        new += 1
+        p = next((x for x in paths if x is not None), None)
+        label = "a panic site that is not on the committed list: %s in %s" % (msg, fn.split("::", 1)[-1])
+        if p is not None:
+            O.fail_path(p, label, dict(R.facts, what="new panic site", function=fn.split("::", 1)[-1][:80], panic=msg[:80]), R.battery, R.judge)
+        else:
+            O.violation(label, None, dict(R.facts, what="new panic site", function=fn[:80], panic=msg[:80]), R.battery, R.judge, label)
+    O.note("%d run-time functions, %d paths, %d locally reachable panic sites (%d listed, %d new)" % (nfn, npaths, len(sites), len(sites) - new, new))
